@@ -114,6 +114,8 @@ package verifspec
 // Decl.minify: every one of the nine code sections goes through whitespace removal of *its own* content; nothing else changes.
 //@ func compiler.Decl.minify
 //@ property C16
+// (a panic of removeWhitespace on text that is not token-wise well formed -- an unterminated string literal -- propagates)
+//@   panics_only_if true
 //@   ensures seq(result.ImportCode) == rwseq(seq(old(d.ImportCode))) && seq(result.TypeDeclCode) == rwseq(seq(old(d.TypeDeclCode)))
 //@   ensures seq(result.ExportTypeCode) == rwseq(seq(old(d.ExportTypeCode))) && seq(result.AnonTypeDeclCode) == rwseq(seq(old(d.AnonTypeDeclCode)))
 //@   ensures seq(result.FuncDeclCode) == rwseq(seq(old(d.FuncDeclCode))) && seq(result.ExportFuncCode) == rwseq(seq(old(d.ExportFuncCode)))
